@@ -389,7 +389,12 @@ bool vfps::ProgramOptions::parse(int ac, char** av)
                 std::string message = "Loading configuration from \""
                                      + _configfile + "\".";
                 Display::printText(message);
-                store(parse_config_file(ifs, _cfgfileopts), _vm);
+                const auto parsed = parse_config_file(ifs, _cfgfileopts);
+                { // a value the command line overrides is malformed all the same
+                    po::variables_map cfgonly;
+                    store(parsed, cfgonly);
+                }
+                store(parsed, _vm);
                 /* Legacy names in the config file act like their current
                  * names: they fill in the current option unless that one
                  * was given explicitly (command line or config file).
